@@ -24,6 +24,9 @@ P1_KINDS = {          # name -> (rule, model kind, xdev)
     'label':   ('label "one"', 'write', False),
     'addhdr':  ('add-header "X-One" "1"', 'write', False),
     'discard': ('discard', 'discard', False),
+    # two actions in one rule: the rewritten copy is committed first, then moved (monitor only: the model describes single protocols)
+    'label_move':  ('label "one" move "%(A)s"', 'write+move', False),
+    'addhdr_flag': ('add-header "X-One" "1" flag !new', 'write+move', False),
 }
 P2_KINDS = {
     'move':      ('move "%(B)s"', 'move', False),
@@ -36,12 +39,18 @@ P2_KINDS = {
 }
 
 
-def setup(p1, p2, p3=None):
+BYNAME = NAME + '2:2,S'           # another message whose file name merely begins with the name of the contested one
+BYSTANDER = b'To: user@example.com\nSubject: bystander\n\nnot matched by any rule of any party\n'
+
+
+def setup(p1, p2, p3=None, bystander=False):
     sb = mdrun.Sandbox()
     src = sb.maildir('src'); A = sb.maildir('A'); B = sb.maildir('B')
     sb.add(src, 'new', ORIG, name=NAME, mtime=1500000000)
+    if bystander:
+        sb.add(src, 'cur', BYSTANDER, name=BYNAME, mtime=1400000000)
     d = {'A': A, 'B': B}
-    g1 = 'new and ' if p1 == 'flag' else ''
+    g1 = 'new and ' if 'flag' in p1 else ''
     g2 = 'new and ' if p2 == 'flag' else ''
     c1 = sb.write_conf(('maildir "%s" {\n\tmatch %sheader "Subject" /message/ %s\n}\n' % (src, g1, P1_KINDS[p1][0] % d)).encode(), name='p1.conf')
     script = os.path.join(sb.root, 'p2.sh')
@@ -223,9 +232,9 @@ def run(ck):
     stats = dict(runs=0, nontrivial=0, model_checked=0, known=0, viol=0)
     collision_stage(ck, rng, stats, q)
     samples = []
-    pairs = [(a, b) for a in P1_KINDS for b in P2_KINDS]
+    pairs = [(a, b) for a in P1_KINDS for b in P2_KINDS if '+' not in P1_KINDS[a][1] or not q or b in ('extrename', 'extdelete', 'move', 'discard')]
     # model outcomes per pair of model kinds
-    mk = sorted(set((P1_KINDS[a][1], P2_KINDS[b][1]) for a, b in pairs))
+    mk = sorted(set((P1_KINDS[a][1], P2_KINDS[b][1]) for a, b in pairs if '+' not in P1_KINDS[a][1]))
     mout, _ = common.run_lines(model, ['conc %s %s' % x for x in mk])
     model_outcomes = {x: set(o.split()) for x, o in zip(mk, mout)}
     for p1, p2 in pairs:
@@ -247,11 +256,13 @@ def run(ck):
         if q and len(ks) > 22:
             ks = sorted(set(rng.sample(ks, 16) + ([created_k + 1] if created_k else []) + ([commit_k] if commit_k else []) + [1, n]))
         for k in ks:
-            sb, c1, script, stf = setup(p1, p2)
+            sb, c1, script, stf = setup(p1, p2, bystander=True)
             rc1, err1, trace = run_p1(sb, c1, p1, plan='%d:run=%s' % (k, script))
             stats['runs'] += 1
             st2 = open(stf).read().strip() if os.path.exists(stf) else None
             files = survey(sb)
+            by = [(md, sub, nm) for md, sub, nm, b in files if b == BYSTANDER]
+            files = [f for f in files if f[3] != BYSTANDER]
             rep = {'p1': p1, 'p2': p2, 'boundary': k, 'p1_exit': rc1, 'p2_exit': st2, 'files': [(md, sub, nm, len(b)) for md, sub, nm, b in files],
                    'p1_stderr': err1[-300:].decode(errors='replace'), 'p1_call_at_boundary': trace0[k - 1] if k - 1 < len(trace0) else None}
             if st2 is None:
@@ -268,7 +279,9 @@ def run(ck):
             removers_ok = (p1 == 'discard' and unlinked_foreign(trace, '4242')) or (p2 == 'discard' and unlinked_foreign(p2lines, '4343')) or \
                           (p2 == 'extdelete' and st2 == '0')
             why = None
-            if junk:
+            if by != [('src', 'cur', BYNAME)]:
+                why = 'a message that no rule of any party matches (its file name begins with the name of the contested one) was moved, copied or removed: now at %r' % by
+            elif junk:
                 why = 'empty / partial / foreign file(s) left behind: %r' % junk
             elif len(copies) > 1:
                 why = 'the message exists %d times: %r' % (len(copies), [(c[0], c[1], c[2]) for c in copies])
@@ -277,7 +290,7 @@ def run(ck):
             elif rc1 < 0 or rc1 > 1:
                 why = 'P1 terminated abnormally (%d)' % rc1
             walker = P2_KINDS[p2][0] is not None
-            in_window = walker and created_k is not None and commit_k is not None and created_k < k <= commit_k and P1_KINDS[p1][1] == 'write'
+            in_window = walker and created_k is not None and commit_k is not None and created_k < k <= commit_k and P1_KINDS[p1][1].startswith('write')
             if why:
                 key = 'F-16-walker-selects-uncommitted-copy'
                 if in_window and ck.is_known(key):
@@ -293,7 +306,7 @@ def run(ck):
             # correspondence: only when P2 met the original message (it was still under its name at k) and no uncommitted copy was in view
             src_there = (commit_k is None or k <= commit_k) and open_k is not None and k > open_k
             # a P2 that leaves the message inside the maildir P1 is walking (flag, label) is met again by P1: sequential composition, monitor only
-            if src_there and not in_window and p2 not in ('flag', 'label'):
+            if src_there and not in_window and p2 not in ('flag', 'label') and '+' not in P1_KINDS[p1][1]:
                 where = '-'
                 if copies:
                     md, sub, nm, b = copies[0]
@@ -326,7 +339,7 @@ def run(ck):
     ck.coverage.update({
         'evaluations': stats['runs'],
         'distinct_nontrivial': stats['nontrivial'],
-        'rule': 'P1 in {move A, cross-device move A, flag, label, add-header, discard} x P2 in {mdsort move B, cross-device move B, flag, label, discard, mv, rm} on one message; P2 runs to '
+        'rule': 'P1 in {move A, cross-device move A, flag, label, add-header, discard, label then move A, add-header then flag} x P2 in {mdsort move B, cross-device move B, flag, label, discard, mv, rm} on one message; P2 runs to '
                 'completion before call k of P1 for every k (quick: <= 18 boundaries per pair incl. the first, the last, the one after the creation of P1\'s file and the '
                 'commit; thorough: every boundary, plus 250 sampled schedules with THREE parties and two preemption points - P2 before call k1, P3 before call k2 >= k1 - judged by the monitor). non-trivial = a schedule whose final tree satisfied the property (then, if P2 met the original message, compared with the model\'s reachable outcomes)',
         'samples': samples,
